@@ -275,3 +275,48 @@ example : let st' := exec {} [.set (.decl 0) "x" (.handle 0), .layer (.decl 0),
     .set (.decl 0) "x" (.handle 1), .set (.decl 0) "s/y" (.handle 2), .clear (.decl 0)]
     (st'.h 0).parent = none ∧ (st'.h 1).parent = none ∧ (st'.m (.anon 0)).parent = none ∧
     (st'.h 2).parent = some (.anon 0) ∧ (st'.m (.decl 0)).layers = [[]] := by decide
+
+/-- **`clear()` with re-entrant user code** (`clearR`: `parent` / `key` setters of user subclasses run
+scripts `S` that use the tree again while the map is being cleared).  Whatever the scripts do, a
+`clear()` that returns leaves the map empty: no sub-map, a single empty layer of handles, every
+`get` answers the default.  (A `clear()` during which user code changes the size of the dictionary
+being iterated raises `RuntimeError`, as Python dictionaries do; the state it leaves is the model's
+`clearR` result, checked by the correspondence run.)
+Partial: that every child — those added by the scripts while the map is being cleared included —
+ends up detached is proved for programs without re-entrant user code (`C11_clear`); for the
+re-entrant semantics it is covered by the correspondence run and the oracle only. -/
+theorem C11_clear_reentrant_partial (S : Scripts) (fuel : Nat) (rs rs' : RSt) (i : MId)
+    (h : clearR S fuel rs i = (rs', .ok ())) :
+    (rs'.st.m i).maps = [] ∧ (rs'.st.m i).layers = [[]] ∧ ∀ key, Desper.Tree.get rs'.st i key = none := by
+  cases fuel with
+  | zero => simp [clearR] at h
+  | succ fuel =>
+    simp only [clearR] at h
+    rcases h1 : clearLayersR S fuel rs i 0 with ⟨a, o⟩
+    rw [h1] at h
+    cases o with
+    | raised e => simp at h
+    | stuck => simp at h
+    | ok u =>
+      simp only at h
+      rcases h2 : clearMapsR S fuel a i 0 (a.st.m i).maps.length with ⟨b, o2⟩
+      rw [h2] at h
+      cases o2 with
+      | raised e => simp at h
+      | stuck => simp at h
+      | ok u2 =>
+        simp only [Prod.mk.injEq, and_true] at h
+        subst h
+        refine ⟨by simp, by simp [layers_def], fun key => ?_⟩
+        simp only [Desper.Tree.get, getPath]
+        cases hps : (keyPath key).1 with
+        | nil => simp [walk, lookup, chainGet?, layers_def]
+        | cons k0 ks => simp [walk]
+
+example :
+    let S : Scripts := fun hk k =>
+      if hk = .parent (.handle 0) ∧ k = 1 then [.set (.decl 0) "unloaded/x" (.handle 5)] else []
+    let rs1 := (stepR S 60 {} (.set (.decl 0) "x" (.handle 0))).1
+    let r := clearR S 60 rs1 (.decl 0)
+    r.2 = .ok () ∧ (r.1.st.m (.decl 0)).maps = [] ∧ (r.1.st.m (.anon 0)).parent = none ∧
+    (r.1.st.h 5).parent = some (.anon 0) := by decide +kernel
